@@ -71,8 +71,8 @@ fn main() {
 fn new_exec(prop: &str, case_no: u64) -> Box<dyn CaseExec> {
     match prop {
         "C02" => Box::new(c02::Exec::new(case_no)),
-        "C01" | "C03" | "C04" | "C05" | "C06" | "C07" | "C08" | "C09" => Box::new(world::Exec::new(case_no)),
-        "C10" | "C11" => Box::new(mgr::Exec::new(case_no)),
+        "C01" | "C03" | "C04" | "C05" | "C06" | "C07" | "C08" | "C09" | "C11" => Box::new(world::Exec::new(case_no)),
+        "C10" => Box::new(mgr::Exec::new(case_no)),
         "C13" => Box::new(c13::Exec::new(case_no)),
         _ => {
             eprintln!("unknown property {}", prop);
